@@ -18,8 +18,14 @@ func init() {
 			"(R3) NewPanicError records severity 'panic', the panic value and debug.Stack(); (R4) the API layer runs each request inside RunWorker and the handler call is dominated by a defer-recover that reports and answers 500; " +
 			"(R5) the service-worker loop is left only on nil, context.Canceled, module stopping or context done - and the error tests cannot be satisfied by a panic error (ModuleError does not unwrap); " +
 			"(R6) recovery code never calls a method of, or through, the recovered panic value itself (directly or via NewPanicError and the helpers it reaches): a second panic raised inside the handler would escape containment; the value may only be handed to the fmt/log formatters, which guard such calls. " +
+			"(R7) lock pairing over package modules (a lock left behind by the error-reporting path wedges the next recovery): " + lockRuleText + ". " +
+			"(R8) error discipline over package modules (an error of a lifecycle pass - including the one a panicking routine was converted into - must reach the caller): " + repoErrText + ". " +
+			"(R9) in Start, Shutdown and ManageModules the error of every prepare/start/stop pass flows into the function's returned error (it is not merely logged or overwritten by a later pass). " +
 			"NOT decided: panics in goroutines that user code spawns itself, process-level behaviour.",
-		Rules: []ruleFn{c06R1, c06R2, c06R3, c06R4, c06R5, c06R6},
+		Rules: []ruleFn{c06R1, c06R2, c06R3, c06R4, c06R5, c06R6,
+			lockRuleFor("C06-R7", 25, []string{"modules"}, []string{}, map[string]string{}),
+			repoErrRuleFor("C06-R8", 12, func(c *Ctx, fn *ssa.Function) bool { return short(fn.Pkg.Pkg.Path()) == "modules" }, map[string]string{"modules.(*Module).setFailure / modules.Module.RunWorker": "failure-status notification worker; its own panics are reported through the module error channel"}),
+			c06R9},
 	})
 }
 
@@ -585,4 +591,35 @@ func c06R6(c *Ctx, r *Report) {
 	}
 	r.Check(analysed["modules.(*Module).NewPanicError"], rule, "modules.(*Module).NewPanicError / analysed as part of the recovery path",
 		"NewPanicError receives the recovered value and was analysed", "NewPanicError is no longer reached with the recovered value from any handler (anchor lost)")
+}
+
+// c06R9: the drivers return the error of every lifecycle pass.
+func c06R9(c *Ctx, r *Report) {
+	const rule = "C06-R9"
+	r.SetFloor(rule, 5)
+	for _, name := range []string{"modules.Start", "modules.Shutdown", "modules.ManageModules"} {
+		fn := c.Func(name)
+		if fn == nil {
+			r.Undecided(rule, name, "anchor function missing")
+			continue
+		}
+		returned := map[ssa.Value]bool{}
+		eachInstr(fn, func(in ssa.Instruction) {
+			if ret, ok := in.(*ssa.Return); ok && len(ret.Results) > 0 {
+				for _, l := range c.Leaves(retVal(ret, len(ret.Results)-1)) {
+					returned[l] = true
+				}
+			}
+		})
+		ord := map[string]int{}
+		for _, ci := range callsIn(fn, "modules.prepareModules", "modules.startModules", "modules.stopModules") {
+			call, ok := ci.(*ssa.Call)
+			if !ok {
+				continue
+			}
+			cons := ordinal(ord, fmt.Sprintf("%s / error of %s is returned", name, calleeName(&call.Call)))
+			r.Check(returned[call], rule, cons, "the pass's error is one of the values the function returns",
+				"the error of this lifecycle pass never reaches the function's result (logged or overwritten only): the caller sees success although a routine failed or panicked", c.Pos(call.Pos()))
+		}
+	}
 }
